@@ -112,6 +112,9 @@ pub struct StreamDef {
 pub struct Prog {
     pub n_ctx: usize,
     pub streams: Vec<StreamDef>,
+    /// which exclusion rules of the generator changed this program (evidence: `excluded:...` classes)
+    #[serde(default)]
+    pub notes: Vec<String>,
 }
 
 pub fn sname(i: usize) -> String {
@@ -322,13 +325,13 @@ struct RawStream {
 pub fn prog(t: Topo) -> BoxedStrategy<Prog> {
     let rs = (any::<u16>(), prop::bool::weighted(0.7), any::<u16>(), op_strategy(), prop::bool::weighted(0.3))
         .prop_map(|(ctx, derived, src, op, emit_ctx)| RawStream { ctx, derived, src, op, emit_ctx });
-    (2usize..=3, proptest::collection::vec(rs, 2..=t.max_streams))
+    (prop_oneof![2 => Just(2usize), 3 => Just(3usize)], proptest::collection::vec(rs, 2..=t.max_streams))
         .prop_map(move |(n_ctx, raws)| build_prog(n_ctx, raws, t))
         .boxed()
 }
 
 fn build_prog(n_ctx: usize, raws: Vec<RawStream>, t: Topo) -> Prog {
-    let mut p = Prog { n_ctx, streams: vec![] };
+    let mut p = Prog { n_ctx, streams: vec![], notes: vec![] };
     // which context consumes a source so far (for the no-fan-out rule)
     let mut consumer_ctx: Vec<(Src, usize)> = vec![];
     // for pure_ingress: role of a context: Some(true) = reads raw types, Some(false) = reads streams
@@ -361,17 +364,28 @@ fn build_prog(n_ctx: usize, raws: Vec<RawStream>, t: Topo) -> Prog {
                 }
             }
             if t.pure_ingress {
-                let is_raw = matches!(src, Src::Raw(_));
-                if let Some(rl) = role[c] {
-                    if rl != is_raw {
-                        return false;
+                // Some(true): the context reads raw inputs, Some(false): it reads streams of other contexts;
+                // never both (derived streams of the context's own streams are free)
+                match src {
+                    Src::Raw(_) => {
+                        if role[c] == Some(false) {
+                            return false;
+                        }
                     }
+                    Src::Stream(j) if p.streams[*j].ctx != c => {
+                        if role[c] == Some(true) {
+                            return false;
+                        }
+                    }
+                    _ => {}
                 }
-                // a context that produces for others and consumes raw is fine; a derived-only context must not host raw readers
             }
             true
         };
         let mut placed = candidates.iter().copied().find(|c| ok(*c, &src, &role, &consumer_ctx, &p));
+        if placed != Some(ctx) && !t.fanout && consumer_ctx.iter().any(|(s, cc)| *s == src && *cc != ctx) {
+            p.notes.push("excluded:fanout-of-one-source-to-two-contexts".into());
+        }
         if placed.is_none() {
             // fall back to a raw source (always placeable somewhere unless roles forbid; then reuse the context of the first raw reader)
             src = Src::Raw(idx::pick(r.src, TYPES.len()));
@@ -384,6 +398,7 @@ fn build_prog(n_ctx: usize, raws: Vec<RawStream>, t: Topo) -> Prog {
         ctx = c;
         if let (Op::SeqPair, Src::Stream(j)) = (&op, &src) {
             if !t.seq_over_remote_transform && p.streams[*j].ctx != ctx && !p.view_equivalent(*j) {
+                p.notes.push("excluded:sequence-over-remote-transforming-stream".into());
                 op = Op::CountAgg { n: 2, partition: true };
             }
         }
@@ -395,31 +410,25 @@ fn build_prog(n_ctx: usize, raws: Vec<RawStream>, t: Topo) -> Prog {
         if !consumer_ctx.iter().any(|(s, cc)| *s == src && *cc == ctx) {
             consumer_ctx.push((src.clone(), ctx));
         }
-        if role[ctx].is_none() {
-            role[ctx] = Some(matches!(src, Src::Raw(_)));
+        match &src {
+            Src::Raw(_) => role[ctx] = Some(true),
+            Src::Stream(j) if p.streams[*j].ctx != ctx => role[ctx] = Some(false),
+            _ => {}
         }
         p.streams.push(StreamDef { ctx, src, op, emit_ctx: r.emit_ctx });
     }
-    // guarantee one cross-context derived stream
+    // guarantee one cross-context derived stream: the last stream has no consumer yet, so a consumer in
+    // another context can always be added without creating fan-out
     if !have_cross {
         if p.streams.is_empty() {
             p.streams.push(StreamDef { ctx: 0, src: Src::Raw(0), op: Op::Pass, emit_ctx: false });
+            role[0] = Some(true);
         }
-        let j = 0usize;
-        let src = Src::Stream(j);
+        let j = p.streams.len() - 1;
         let from = p.streams[j].ctx;
-        let mut target = None;
-        for d in 1..n_ctx {
-            let c = (from + d) % n_ctx;
-            let role_ok = !t.pure_ingress || role[c] != Some(true);
-            let fan_ok = t.fanout || consumer_ctx.iter().all(|(s, cc)| *s != src || *cc == c);
-            if role_ok && fan_ok {
-                target = Some(c);
-                break;
-            }
-        }
+        let target = (1..n_ctx).map(|d| (from + d) % n_ctx).find(|c| !t.pure_ingress || role[*c] != Some(true));
         if let Some(c) = target {
-            p.streams.push(StreamDef { ctx: c, src, op: Op::CountAgg { n: 2, partition: false }, emit_ctx: false });
+            p.streams.push(StreamDef { ctx: c, src: Src::Stream(j), op: Op::CountAgg { n: 2, partition: false }, emit_ctx: false });
         }
     }
     p
